@@ -200,3 +200,5 @@ for _auto in (False, True):
                statement='the refund transfer of a closed farm fails (tolerated): the close (or the creation that auto-closes an expired farm) still succeeds, the farm is '
                          'removed, the remainder stays in the contract, no other farm, position or balance differs from the run where the transfer works',
                bounds='one expired farm with symbolic budget, one live farm on another LP, one position; refund transfer fails or not', covers=['done'])(_ob_close_refund_fails(_auto))
+
+from . import lockdep   # noqa: E402,F401  (a lock refused by the farm manager fails the whole deposit)
